@@ -1,6 +1,19 @@
 """Per-property manifest metadata.  bin/mkmanifest renders MANIFEST.json from this."""
 
 CHECKS = {
+    "C02": dict(
+        text="spec/AshRx.tla is the reference decoder of the receive path, one byte per step (flag, cancel, substitute, XON/XOFF, "
+             "unstuffing with reserved-value check, CRC/length checks from AshCodec.tla, frame handling from AshHost.tla). AshRxMC "
+             "checks on the spec that nothing is delivered upward unless the candidate between two flags unstuffs and parses. The real "
+             "AshProtocol.data_received is fed every stream of up to 4 (quick) / 5 (thorough) symbols over 9 reserved-rich bytes + 3 "
+             "whole valid frames under all 2^(n-1) chunkings, random mutated concatenations of valid frames (flipped, deleted, "
+             "inserted, over-stuffed bytes) under random chunkings, and 8/64 MB of flag-free garbage under tracemalloc; TLC validates "
+             "every recorded trace against Trace_AshRx (same upward calls, same ACK/NAK numbers, nothing raised, memory inequality).",
+        design_ref="3/C02",
+        note="Trusted: tracemalloc measurement for the memory clause (TLC only decides the inequality); reads + residue stay below the "
+             "receive-buffer bound as the property's quantifier says. Surplus data in ACK/NAK and DATA lengths outside 3..128 are accepted (latitude).",
+        technique="TLA+ reference decoder + TLC model check of the decoder; exhaustive short streams x all chunkings and random streams from the implementation validated as traces by TLC",
+    ),
     "C04": dict(
         text="spec/AshHost.tla models the host's frame handling at event-loop-callback granularity. AshHostOpenMC puts it "
              "against an open peer: TLC checks, in every reachable state and for every frame of the alphabet, that a DATA frame "
